@@ -28,6 +28,8 @@ import TableauVerif.Spec.C03
 import TableauVerif.Spec.C03Frac
 import TableauVerif.Model.Fraction
 import TableauVerif.Model.Duration
+import TableauVerif.Model.EnumLit
+import TableauVerif.Spec.C03Enum
 import TableauVerif.Spec.C20Dur
 namespace Driver
 open TableauVerif TableauVerif.Model
@@ -214,8 +216,17 @@ def decCRes? (s : String) : Option Model.Fraction.CRes :=
   | ["unmodelled"] => some .unmodelled
   | _ => none
 
+/-- enum table `num:name:alias;…` (name and alias as u-hex strings) -/
+def decEnumTable? (s : String) : Option (List Model.EnumLit.EVal) :=
+  (s.splitOn ";").mapM fun e =>
+    match e.splitOn ":" with
+    | [n, name, al] => do pure { num := ← n.toInt?, name := ← decStr? name, alias := ← decStr? al }
+    | _ => none
+
 def c03 (fn : String) (a : List String) : Option String := do
   match fn, a with
+  | "c03.enum", [tbl, raw] => some (encRes (Model.EnumLit.parseEnum (← decEnumTable? tbl) (← decStr? raw)))
+  | "o.c03.enum", [tbl, raw, obs] => some (Spec.C03Enum.holds (← decEnumTable? tbl) (← decStr? raw) (← decRes? obs))
   | "c03.parse", [k, raw] => some (encRes (Literal.parse (← decKind? k) (← decStr? raw)))
   | "o.c03.parse", [k, raw, obs] =>
     some (Spec.C03.holds (← decKind? k) (← decStr? raw) (← decRes? obs)).toString
